@@ -80,9 +80,8 @@ func labelsForCompare(l refmodel.Labels) string {
 	c := refmodel.Labels{}
 	for k, v := range l {
 		switch k {
-		case refmodel.ErrorDetails:
-		case refmodel.ErrorLabel:
-			c[k] = "<set>"
+		case refmodel.ErrorDetails, refmodel.ErrorLabel:
+			c[k] = "<set>" // compared by presence
 		default:
 			c[k] = v
 		}
